@@ -141,6 +141,7 @@ class Net:
         self.connect_outcomes = list(connect_outcomes) if connect_outcomes is not None else None
         self.on_event: typing.Callable[[dict[str, typing.Any]], None] | None = None
         self.max_events = 100_000
+        self.close_suspends_first = True
 
     # ------------------------------------------------------------- ledger
     def log(self, op: str, sock: Sock | None, **kw: typing.Any) -> dict[str, typing.Any]:
@@ -436,10 +437,15 @@ class AsyncSimStream(AsyncNetworkStream):
         await vrt.RT.cancel_shielded_checkpoint()
 
     async def aclose(self) -> None:
-        # closing is done first: real backends close the transport even if
-        # the task is cancelled while awaiting the close
-        self._net.do_close(self._sock)
-        await vrt.RT.checkpoint()
+        # Weakest backend contract: closing may suspend before it takes effect
+        # (a graceful TLS shutdown, a custom backend), so a cancellation that
+        # is delivered here aborts the close.  httpcore shields its closes.
+        if self._net.close_suspends_first:
+            await vrt.RT.checkpoint()
+            self._net.do_close(self._sock)
+        else:
+            self._net.do_close(self._sock)
+            await vrt.RT.checkpoint()
 
     async def start_tls(self, ssl_context: typing.Any, server_hostname: typing.Any = None,
                         timeout: typing.Any = None) -> AsyncNetworkStream:
